@@ -7,6 +7,12 @@ G: every transition of that state graph is printed (history + predicted minimum 
    and replayed on the real MinLevelPathMap / MinLevelFilter; `matches` is compared for every
    module x level token x construction path.  The lenient parse of the textual tokens is the
    specification's (spec/LevelParse.tla), printed by TLC.
+   The documented matching rule (`Path::is_child_of`, doc of MinLevelPathMap): level B of the relation
+   (byte offsets, is_char_boundary, split_at) must be the ancestor-or-self relation on every pair of
+   paths (ChildOfIsSelfOrAncestor), and the trie must answer the level of the most specific registered
+   path the module is_child_of (MapMatchesByIsChildOf); the CHILDOF table is replayed on the real
+   is_child_of for every pair x path form, and every transition's governing path is found again by a
+   linear scan with the real is_child_of.
 """
 import json
 import os
@@ -16,7 +22,7 @@ import vlib
 
 def run(ctx):
     cfg = "Level_quick.cfg" if ctx.quick else "Level_thorough.cfg"
-    r = ctx.tlc("MCLevel", cfg, workers=4 if ctx.quick else 12, timeout=3000, xmx="8g")
+    r = ctx.tlc("MCLevel", cfg, workers=4 if ctx.quick else 6, timeout=3000, xmx="8g")
     if r.violated:
         ctx.spec_violation(r, "Level.tla: %s violated by the transcription of the trie" % r.violated)
         return
@@ -24,9 +30,14 @@ def run(ctx):
     cases = os.path.join(ctx.out, "cases.ndjson")
     n = vlib.extract_printed(r.out_path, "REPLAY", cases)
     rc = ctx.replay_case()
-    if rc is not None:      # --replay: only the stored case
-        with open(cases, "w") as f:
-            f.write(json.dumps(rc["case"]) + "\n")
+    only_row = None
+    if rc is not None:      # --replay: only the stored case (a transition, or a row of the CHILDOF table)
+        if isinstance(rc.get("case"), dict) and "childof" in rc["case"]:
+            only_row = rc["case"]["childof"]
+            open(cases, "w").close()
+        else:
+            with open(cases, "w") as f:
+                f.write(json.dumps(rc["case"]) + "\n")
         n = 1
     toks = os.path.join(ctx.out, "tokens.json")
     tl = list(vlib.iter_printed(r.out_path, "TOKENS"))
@@ -34,20 +45,31 @@ def run(ctx):
         raise vlib.ToolError("TLC printed no cases / token table")
     with open(toks, "w") as f:
         f.write(tl[0])
+    childof = os.path.join(ctx.out, "childof.json")
+    cl = list(vlib.iter_printed(r.out_path, "CHILDOF"))
+    if not cl:
+        raise vlib.ToolError("TLC printed no CHILDOF table")
+    with open(childof, "w") as f:
+        f.write(json.dumps([only_row]) if only_row is not None else cl[0])
     bindir = ctx.cargo_build("vh_core", bins=["c17_level"])
     rep_path = os.path.join(ctx.out, "report.json")
-    ctx.run_harness(os.path.join(bindir, "c17_level"), [cases, toks, rep_path])
+    ctx.run_harness(os.path.join(bindir, "c17_level"), [cases, toks, rep_path, childof])
     rep = json.load(open(rep_path))
     ctx.cov["traces_validated_against_impl"] += rep["cases"]
     ctx.cov["impl_checks"] = rep["checks"]
+    ctx.cov["childof_pairs"] = rep.get("extra", {}).get("childof_pairs", 0)
+    if not ctx.cov["childof_pairs"]:
+        raise vlib.ToolError("the harness did not replay the CHILDOF table")
     with open(cases) as f:
-        ctx.sample(json.loads(f.readline()))
+        first = f.readline()
+        ctx.sample(json.loads(first) if first.strip() else {"childof": only_row})
         for _ in range(min(n - 2, 5000)):
             f.readline()
         if n > 1:
             ctx.sample(json.loads(f.readline()))
     ctx.assumptions += [
         "std's binary search contract on sorted, duplicate-free vectors",
+        "is_child_of on valid paths only (its doc: undefined on invalid ones); é stands for the multi-byte characters",
         "segment order in the model = byte order of the segment texts (checked by construction of SegName)",
         "bounded: %s" % vlib.cfg_header(os.path.join(vlib.SPEC, cfg)),
     ]
